@@ -290,7 +290,7 @@ def program_lines(name, ev, run, keys):
     if name.startswith('rnd_'):
         import scen
         rspec = scen.rand_spec(name)
-        kind = {'add': 'add', 'pack': 'pack', 'topack': 'addpack', 'import': 'import', 'delete': 'delete', 'clean': 'clean', 'repack': 'repack'}[rspec['kind']]
+        kind = {'add': 'add', 'pack': 'pack', 'topack': 'addpack', 'import': 'import', 'delete': 'delete', 'clean': 'clean', 'repack': 'repack', 'loosen': 'add'}[rspec['kind']]
     if not kind:
         return None
     post = run['post']
@@ -495,8 +495,8 @@ class _Names(list):
 
 
 # monotone steps: no deletion, no repack, no truncation (no_holes without read-twice truncates)
-MONO_SCENARIOS = _Names(MONO_SCENARIOS, lambda sp: sp['kind'] in ('add', 'pack', 'clean') or (sp['kind'] == 'topack' and not sp['nh']) or (sp['kind'] == 'import' and sp['same']))
-NOREPACK_SCENARIOS = _Names(NOREPACK_SCENARIOS, lambda sp: sp['kind'] in ('add', 'pack', 'clean', 'topack', 'import'))
+MONO_SCENARIOS = _Names(MONO_SCENARIOS, lambda sp: sp['kind'] in ('add', 'pack', 'clean', 'loosen') or (sp['kind'] == 'topack' and not sp['nh']) or (sp['kind'] == 'import' and sp['same']))
+NOREPACK_SCENARIOS = _Names(NOREPACK_SCENARIOS, lambda sp: sp['kind'] in ('add', 'pack', 'clean', 'topack', 'import', 'loosen'))
 
 
 def random_names(rnd, per_kind):
@@ -508,7 +508,7 @@ def check_traces(ck, pid, baselines=None, names=None):
     import scen
     from concurrent.futures import ThreadPoolExecutor
     names = names or list(baselines or {})
-    names = [n for n in names if n not in scen.DAMAGED_PRE]
+    names = [n for n in names if n not in scen.DAMAGED_PRE and n not in scen.HEAVY]
     with ThreadPoolExecutor(common.NPROC) as ex:
         results = list(ex.map(check_scenario, names))
     bad_sem, bad_mon, bad_pl, bad_mono, bad_c13, bad_fd, bad_prog = [], [], [], [], [], [], []
@@ -593,7 +593,7 @@ def check_fault_traces(ck, pid):
     must accept every boundary of it and the model must end in the folder the failed operation left behind"""
     import scen
     from concurrent.futures import ThreadPoolExecutor
-    runs = [(n, r) for n, r in getattr(ck, 'fault_runs', []) if n not in scen.DAMAGED_PRE]
+    runs = [(n, r) for n, r in getattr(ck, 'fault_runs', []) if n not in scen.DAMAGED_PRE and n not in scen.HEAVY]
 
     tails = []
 
